@@ -180,7 +180,14 @@ func (v *venv) runBlock(cs []*call) {
 		if c.signer != nil {
 			s = []world.SignerSpec{world.G(c.signer)}
 		}
-		ps[i] = v.w.Prepare(s, v.nfs, c.method, c.args...)
+		args := c.args
+		if id, ok := args[0].([]byte); ok && (c.method == "setConfig" || c.method == "cheque" || c.method == "alphabetUpdate") && b.Rng.IntN(5) == 0 {
+			// the id reaches the contract as a Buffer, as a value put together by the calling script does; the same bytes
+			// are the same decision (seeded change C17-11: ids compared by EQUAL, which takes Buffers by reference)
+			args = append([]any{world.Buf(id)}, args[1:]...)
+			b.Hit("decision-id-passed-as-a-Buffer")
+		}
+		ps[i] = v.w.Prepare(s, v.nfs, c.method, args...)
 	}
 	rs := v.w.Block(ps...)
 	b.Tx(len(rs))
